@@ -104,6 +104,21 @@ def o_policy(rec: Recorder, case, soft=False):
     if tuple(ctx.schemes()) != tuple(model.names):
         rec.fail("C04/schemes", "schemes() differs from the configured list", "policy", case, ctx.schemes(), model.names, soft=soft)
         return
+    # a bystander: a second context with the same schemes and settings but another deprecation policy is built and used between this
+    # context's first use and its probing -- every context decides by ITS OWN policy, whatever other contexts exist in the process
+    for s in model.names:
+        for cat in cats:
+            call(ctx.handler, s, cat)
+    cfg2 = {k: v for k, v in cfg.items() if not k.endswith("deprecated")}
+    dflts = {model.default_scheme(c) for c in cats}
+    if not any(k.endswith("deprecated") for k in cfg):
+        cfg2["deprecated"] = [s for s in model.names if s not in dflts]
+    st_b, other = call(lambda: CryptContext(**cfg2))
+    if st_b == "ok":
+        rec.count("bystander-context")
+        for s in model.names:
+            for cat in cats:
+                call(other.handler, s, cat)
     # new hashes: default scheme + configured cost, never needing an update
     for cat in cats:
         dflt = model.default_scheme(cat)
